@@ -7,8 +7,8 @@ from ..fold import fold_value, fold_num
 from ..nf import Rat, C
 from ..source import Unsupported, AnchorError, params
 from ..xlate import Interp, Obj, ListV, DictV, Raised, SumV, Elem
-from .common import same, show, sub, opaque_obj, mix_opaque, sel_opaque, coeff_vector
-from .rxnfix import reaction
+from .common import same, show, sub, opaque_obj, attached_models, sel_opaque, coeff_vector
+from .rxnfix import reaction, set_public
 from .c01 import mode_instances, getv, MODE_ATTRS, QUANT
 
 ENERGY = ('U', 'H', 'F', 'G', 'E')      # value = twin * R * T, unit string extended by /K
@@ -248,19 +248,21 @@ def check(run, repo):
         from ..xlate import RankOrder
         I = Interp(repo, order=RankOrder({'sp.T_low': 1, 'sp.T_mid': 5, 'sp.T_high': 9, 'T': 3,
                                                         'seg0.T_low': 1, 'seg0.T_high': 9}))
-        mix_opaque(I)
         D = I.D
         nH, nO = D.sym('nH'), D.sym('nO')
         molw = C(aw['H']) * nH + C(aw['O']) * nO
-        attrs = {'name': 'sp', 'elements': DictV({'H': nH, 'O': nO}), 'misc_models': ListV([Obj('m0')])}
+        attrs = {'name': 'sp', 'elements': DictV({'H': nH, 'O': nO}), 'misc_models': attached_models(I, 1)}
         if cname == 'Nasa':
             attrs.update({'a_low': coeff_vector(I, 'lo', 7), 'a_high': coeff_vector(I, 'hi', 7)})
         elif cname == 'Nasa9':
             seg = Obj('seg0', repo.cls('pmutt.empirical.nasa.SingleNasa9'), attrs={'a': coeff_vector(I, 's', 9)})
-            attrs['_nasas'] = ListV([seg])
+            post = ('nasas', ListV([seg]))
         else:
-            attrs.update({'a': coeff_vector(I, 'a', 8), '_units': D.sym('units')})
+            attrs.update({'a': coeff_vector(I, 'a', 8)})
+            post = ('units', D.sym('units'))
         sp = Obj('sp', ci, attrs=attrs)
+        if cname != 'Nasa':
+            set_public(I, sp, *post)
         sel_opaque(sp)
         for sel in (None, True):
             avail = {'T': D.sym('T'), 'P': D.sym('P'), 'S_elements': sel}
